@@ -232,8 +232,8 @@ CLAIMED["C17"] = (
     "repeatedly; reconnect limits None/0/1/3; 0-3 callers with exceptions on/off; cancellation of a caller at every "
     "write/report count followed by 300 sends (sequence numbers wrap); serial gateway silent at confirmation or answer.",
     "Trusted: as C15. A send issued after the driver has reported 'failed' is not judged (the application must "
-    "reconnect); hasseb answer pairing after a cancelled query is only judged when the stale answer is delivered "
-    "before the next write.",
+    "reconnect). Known finding orphaned-answer-after-cancel (hasseb / LUBA / SCI): matched by a witness TLC computes; "
+    "every other clause is evaluated first, so the finding cannot mask anything.",
     "DESIGN.md §5 C17")
 
 CLAIMED["C20"] = (
@@ -243,7 +243,10 @@ CLAIMED["C20"] = (
     "the fake gateway produced and compared with what every subscriber of the real driver received",
     "Histories of 1..8 transactions of every kind in the property's list with gaps on both sides of the timeout, "
     "interleaved with an own send, 0-3 subscribers joining/leaving; Tridonic watcher via bus_traffic callbacks, LUBA/SCI "
-    "via DistributorQueue children; decoded class checked against the specification's tables in device-type context.",
+    "via DistributorQueue children; decoded class checked against the specification's tables in device-type context "
+    "(a frame the tables do not name must come back as an unknown command); plus every history of up to 3 (quick) / 4 "
+    "(thorough) reports over 12 report kinds x two gaps (small-scope exhaustive), firmware-quirk traffic and callers "
+    "cancelled in mid-transaction.",
     "Trusted: as C15; timeouts never exercised at equality; join/leave never coincide with a report.",
     "DESIGN.md §5 C20")
 
